@@ -33,15 +33,24 @@ VNam == /\ Take("nam")
            IN /\ Assert(recorded = legal, <<"the record does not carry exactly the legal namings of the skeleton", R.sk>>)
               /\ Assert(Cardinality(ref) = 1 /\ Len(res) = Cardinality(legal), <<"a naming is recorded twice", R.sk>>)
               /\ LET r0 == res[CHOOSE j \in ref : TRUE]
-                     bad == {j \in 1..Len(res) : res[j].class # "ok" \/ res[j].digest # r0.digest}
-                     badpairs == {j \in bad : res[j].nm \in PairMerges(info.nb)}
-                 IN IF r0.class # "ok"
+                     anyok == \E j \in 1..Len(res) : res[j].class = "ok"
+                     \* the reference: the all-distinct rendering; when it is rejected, any accepted one
+                     d0 == IF r0.class = "ok" THEN r0.digest
+                           ELSE IF anyok THEN res[CHOOSE j \in 1..Len(res) : res[j].class = "ok"].digest ELSE ""
+                     bad == {j \in 1..Len(res) : res[j].class # "ok" \/ res[j].digest # d0}
+                     described == {j \in 1..Len(res) : res[j].nm \in PairMerges(info.nb) \/ IsSpecial(res[j].nm)}
+                     \* when the all-distinct program itself is rejected the ACCEPTED renamings are the telling ones
+                     telling == IF r0.class = "ok" THEN bad \cap described
+                                ELSE {j \in described : res[j].class = "ok"}
+                 IN IF ~anyok
                     THEN Reject([rec |-> k, t |-> "nam", sk |-> R.sk, name |-> SkName(R.sk), why |-> "base-rejected"])
                     ELSE IF bad = {} THEN TRUE
                     ELSE Reject([rec |-> k, t |-> "nam", sk |-> R.sk, name |-> SkName(R.sk),
-                                 why |-> IF \E j \in bad : res[j].class # "ok" THEN "renaming-rejected" ELSE "renaming-changes-output",
+                                 why |-> IF r0.class # "ok" THEN "renaming-changes-verdict"
+                                         ELSE IF \E j \in bad : res[j].class # "ok" THEN "renaming-rejected"
+                                         ELSE "renaming-changes-output",
                                  bad |-> bad, nbad |-> Cardinality(bad), nlegal |-> Len(res),
-                                 pairs |-> {PairDescr(info.sc, MergedPair(res[j].nm)[1], MergedPair(res[j].nm)[2]) : j \in badpairs}])
+                                 pairs |-> {NamingDescr(info, res[j].nm) : j \in telling}])
 
 \* is the skeleton itself (all-distinct names, nothing planted) accepted in this trace?
 NamOk(sk) == \E i \in 1..Len(Rec) : /\ Rec[i].t = "nam" /\ Rec[i].sk = sk
@@ -60,11 +69,13 @@ OosWhy(in, r, sk) ==
 
 VOos == /\ Take("oos")
         /\ LET info == SkInfo(R.sk) IN
-           /\ Assert(<<R.b, R.slot>> \in Pairs(info), <<"the record is not a (binder, slot) pair of the universe", R.sk, R.b, R.slot>>)
+           /\ Assert(<<R.b, R.slot, R.form>> \in Triples(info),
+                     <<"the record is not a (binder, slot, form) triple of the universe", R.sk, R.b, R.slot, R.form>>)
            /\ LET in == PairInScope(info, R.b, R.slot)
                   why == OosWhy(in, R, R.sk)
               IN IF why = "" THEN TRUE
-                 ELSE Reject([rec |-> k, t |-> "oos", sk |-> R.sk, name |-> SkName(R.sk), b |-> R.b, slot |-> R.slot, why |-> why,
+                 ELSE Reject([rec |-> k, t |-> "oos", sk |-> R.sk, name |-> SkName(R.sk), b |-> R.b, slot |-> R.slot, form |-> R.form, why |-> why,
+                              ginit |-> InGlobalInit(info.sc, R.b),
                               cls |-> IF in THEN "in-scope" ELSE PosClass(info.sc, R.b, R.slot),
                               bk |-> info.sc.bk[R.b], own |-> OwnFrame(info.sc, R.b)])
 
@@ -73,7 +84,8 @@ VGen == /\ Take("gen")
                           g == GenNaming(c.tops)
                       IN Assert(c.id = R.id /\ g.legal /\ g.shadow = R.shadow,
                                 <<"the record was not made with the naming the specification derives", R.rec>>))
-        /\ LET why == IF R.distinct.class # "ok" THEN "base-rejected"
+        /\ LET why == IF R.distinct.class # "ok" /\ R.shadowed.class # "ok" THEN "base-rejected"
+                      ELSE IF R.distinct.class # "ok" THEN "renaming-changes-verdict"
                       ELSE IF R.shadowed.class # "ok" THEN "renaming-rejected"
                       ELSE IF R.shadowed.digest # R.distinct.digest THEN "renaming-changes-output"
                       ELSE ""
@@ -86,9 +98,9 @@ TypeOk == pc \in {"start", "done"} /\ (pc = "start" => R.t \in {"nam", "oos", "g
 
 (* with FULL=1 the trace covers exactly the universe *)
 RecIdx(t) == {i \in 1..Len(Rec) : Rec[i].t = t}
-AllPairs == UNION {{<<i, p[1], p[2]>> : p \in Pairs(SkInfo(i))} : i \in 1..NSkel}
+AllPairs == UNION {{<<i, p[1], p[2], p[3]>> : p \in Triples(SkInfo(i))} : i \in 1..NSkel}
 ASSUME TraceComplete == Full =>
     /\ {Rec[i].sk : i \in RecIdx("nam")} = 1..NSkel /\ Cardinality(RecIdx("nam")) = NSkel
-    /\ {<<Rec[i].sk, Rec[i].b, Rec[i].slot>> : i \in RecIdx("oos")} = AllPairs /\ Cardinality(RecIdx("oos")) = Cardinality(AllPairs)
+    /\ {<<Rec[i].sk, Rec[i].b, Rec[i].slot, Rec[i].form>> : i \in RecIdx("oos")} = AllPairs /\ Cardinality(RecIdx("oos")) = Cardinality(AllPairs)
     /\ (HasGen => {Rec[i].rec : i \in RecIdx("gen")} = 1..Len(GenCases) /\ Cardinality(RecIdx("gen")) = Len(GenCases))
 =============================================================================
